@@ -7,6 +7,7 @@ import (
 	"strings"
 	"time"
 
+	"seehuhn.de/go/postscript/funit"
 	"seehuhn.de/go/sfnt"
 	"seehuhn.de/go/sfnt/cmap"
 	"seehuhn.de/go/sfnt/glyf"
@@ -80,6 +81,12 @@ var lineNoRe = regexp.MustCompile(`^(\d+):`)
 
 // c19Explore runs Parse on every input under every schedule within the bound.
 func c19Schedules(r *run.Run, name, rule string, font *sfnt.Font, inputs []string, bound int, share float64) {
+	c19SchedulesOpt(r, name, rule, font, inputs, bound, share, true)
+}
+
+// lineClause=false: the font, not the text, is at fault (no usable character map); the property's
+// line-number clause speaks about errors in the text
+func c19SchedulesOpt(r *run.Run, name, rule string, font *sfnt.Font, inputs []string, bound int, share float64, lineClause bool) {
 	// results of the default (free-running) execution
 	// (under a watchdog: a goroutine that spins without reaching a channel operation is invisible to the
 	// cooperative scheduler, but makes the free-running call hang as well, because the control flow of the
@@ -134,7 +141,7 @@ func c19Schedules(r *run.Run, name, rule string, font *sfnt.Font, inputs []strin
 			if want[i].err != "" {
 				sig = "invalid input"
 			}
-			if res.Steps == 0 && res.Spawned == 0 {
+			if res.Steps == 0 && res.Spawned == 0 && lineClause {
 				explore.Fatal("C19: the builder package is not instrumented (scheduler seam missing)")
 			}
 			if res.Spawned > 1 {
@@ -159,7 +166,7 @@ func c19Schedules(r *run.Run, name, rule string, font *sfnt.Font, inputs []strin
 			if got != want[i] {
 				c.Fail("C19.schedule-dependent", sig, "Parse(%q) gives %.200q / %q under schedule %v, and %.200q / %q when running free", in, got.lookups, got.err, res.Trace, want[i].lookups, want[i].err)
 			}
-			if got.err != "" {
+			if got.err != "" && lineClause {
 				m := lineNoRe.FindStringSubmatch(got.err)
 				lines := strings.Count(in, "\n") + 1
 				if m == nil {
@@ -344,6 +351,142 @@ func c19RoundTrip(r *run.Run) {
 		})
 }
 
+// ---- large lookups under every map iteration order ----
+
+func c19BigFont(n int) *sfnt.Font {
+	f, _ := FontFromChoices(gen.FontOpts{NoMeta: true, NoLayout: true}, 0, 1, 0, 0, 0)
+	ol := &glyf.Outlines{Maxp: &maxp.TTFInfo{MaxZones: 2}}
+	for i := 0; i < n; i++ {
+		ol.Glyphs = append(ol.Glyphs, gen.GlyfShape(i%5+1, i))
+		ol.Widths = append(ol.Widths, 500)
+		ol.Names = append(ol.Names, fmt.Sprintf("g%03d", i))
+	}
+	ol.Names[0] = ".notdef"
+	f.Outlines = ol
+	f.InstallCMap(cmap.Format4{'A': 1, 'B': 2})
+	return f
+}
+
+// c19Large builds the k-th large lookup with about n entries.
+func c19Large(k, n int) (gtab.LookupList, bool, string) {
+	g := func(i int) glyph.ID { return glyph.ID(1 + i) }
+	switch k {
+	case 0:
+		st := &gtab.Gsub1_2{Cov: coverage.Table{}}
+		for i := 0; i < n; i++ {
+			st.Cov[g(i)] = i
+			st.SubstituteGlyphIDs = append(st.SubstituteGlyphIDs, g((i*7+3)%n+n))
+		}
+		return gtab.LookupList{gen.MakeLookup(1, gen.Flags[0], []gtab.Subtable{st})}, false, fmt.Sprintf("GSUB1.2 with %d mappings", n)
+	case 1:
+		st := &gtab.Gsub2_1{Cov: coverage.Table{}}
+		for i := 0; i < n; i++ {
+			st.Cov[g(i)] = i
+			st.Repl = append(st.Repl, []glyph.ID{g(i + n), g((i*5)%n + n), g(i)}[:1+i%3])
+		}
+		return gtab.LookupList{gen.MakeLookup(2, gen.Flags[0], []gtab.Subtable{st})}, false, fmt.Sprintf("GSUB2 with %d sequences", n)
+	case 2:
+		st := &gtab.Gsub3_1{Cov: coverage.Table{}}
+		for i := 0; i < n; i++ {
+			st.Cov[g(i)] = i
+			st.Alternates = append(st.Alternates, []glyph.ID{g(i + n), g((i*5)%n + n), g(i)}[:1+i%3])
+		}
+		return gtab.LookupList{gen.MakeLookup(3, gen.Flags[0], []gtab.Subtable{st})}, false, fmt.Sprintf("GSUB3 with %d alternate sets", n)
+	case 3, 4:
+		// ligature sets whose candidates share prefixes, so that their order matters
+		sets := max(2, n/7)
+		if k == 4 {
+			sets = max(2, n/2)
+		}
+		st := &gtab.Gsub4_1{Cov: coverage.Table{}}
+		total := 0
+		for i := 0; i < sets; i++ {
+			var ligs []gtab.Ligature
+			for j := 0; total < n && j < (n+sets-1)/sets; j++ {
+				in := []glyph.ID{g(j % 3), g((i + j) % 4), g(j / 3 % 5)}[:1+(j+i)%3]
+				ligs = append(ligs, gtab.Ligature{In: in, Out: g(n + total)})
+				total++
+			}
+			if len(ligs) == 0 {
+				break // a ligature set without ligatures has no notation
+			}
+			st.Cov[g(i)] = i
+			st.Repl = append(st.Repl, ligs)
+		}
+		return gtab.LookupList{gen.MakeLookup(4, gen.Flags[0], []gtab.Subtable{st})}, false, fmt.Sprintf("GSUB4 with %d ligatures in %d sets", total, len(st.Repl))
+	case 5:
+		st := &gtab.Gpos1_2{Cov: coverage.Table{}}
+		for i := 0; i < n; i++ {
+			st.Cov[g(i)] = i
+			st.Adjust = append(st.Adjust, &gtab.GposValueRecord{XAdvance: funit.Int16(i - 5), XPlacement: funit.Int16(i % 3)})
+		}
+		return gtab.LookupList{gen.MakeLookup(1, gen.Flags[0], []gtab.Subtable{st})}, true, fmt.Sprintf("GPOS1.2 with %d records", n)
+	default:
+		st := gtab.Gpos2_1{}
+		for i := 0; i < n; i++ {
+			st[glyph.Pair{Left: g(i % 9), Right: g(i / 9)}] = &gtab.PairAdjust{First: &gtab.GposValueRecord{XAdvance: funit.Int16(-i - 1)}}
+		}
+		return gtab.LookupList{gen.MakeLookup(2, gen.Flags[0], []gtab.Subtable{st})}, true, fmt.Sprintf("GPOS2.1 with %d pairs", n)
+	}
+}
+
+func c19LargePart(r *run.Run) {
+	sizes := []int{5, 12, 13, 14, 30, 60, 150}
+	font := c19BigFont(320)
+	r.ExploreSharded(explore.Config{Name: "C19.large-map-order", Deadline: r.PartDeadline(0.5)},
+		mapOrderRule("large lookups (GSUB 1.2 / 2 / 3 with n entries, GSUB 4 with n ligatures in few and in many ligature sets whose candidates share prefixes, GPOS 1.2 with n records, GPOS 2.1 with n pairs; n = 5, 12, 13, 14, 30, 60, 150) built, described and parsed back: Parse(Explain(L)) == L on the canonical form"),
+		mapOrderProcs, 0,
+		func(c *explore.Ctx) {
+			var desc string
+			ref, diff := underOrders(c, func(cc *explore.Ctx) string {
+				k := cc.Choose(7, "lookup kind")
+				n := sizes[cc.Choose(len(sizes), "size")]
+				ll, gpos, d := c19Large(k, n)
+				if cc == c {
+					desc = d
+					c.Sample(func() any { return d })
+					c.Shard(explore.KeyOf(k, n))
+				}
+				fnt := font.Clone()
+				var text string
+				if gpos {
+					fnt.Gpos = &gtab.Info{LookupList: ll}
+					text = strings.Join(builder.ExplainGpos(fnt), "\n")
+				} else {
+					fnt.Gsub = &gtab.Info{LookupList: ll}
+					text = builder.ExplainGsub(fnt)
+				}
+				back, err := builder.Parse(fnt, text)
+				if err != nil {
+					return "PARSE-ERROR " + err.Error() + "\n" + text
+				}
+				if a, b := c19Canon(ll), c19Canon(back); a != b {
+					return "MISMATCH\n" + firstDiffLine(a, b)
+				}
+				return "ok " + digestOf([]byte(text))
+			})
+			c.Nontrivial()
+			c.Outcome(desc)
+			sig := strings.SplitN(desc, " ", 2)[0]
+			switch {
+			case diff != "":
+				c.Fail("C19.roundtrip", sig+" / map order", "%s: the description, or whether it parses back to the same lookup, depends on map iteration order:\n%s", desc, diff)
+			case !strings.HasPrefix(ref, "ok "):
+				c.Fail("C19.roundtrip", sig+" / large", "%s: Parse(Explain(L)) differs from L: %.600s", desc, ref)
+			}
+		})
+}
+
+func firstDiffLine(a, b string) string {
+	la, lb := strings.Split(a, "\n"), strings.Split(b, "\n")
+	for i := 0; i < len(la) && i < len(lb); i++ {
+		if la[i] != lb[i] {
+			return fmt.Sprintf("L:      %.300s\nparsed: %.300s", la[i], lb[i])
+		}
+	}
+	return fmt.Sprintf("%d vs %d lines", len(la), len(lb))
+}
+
 // semantics of the documented syntax on small enumerations
 func c19Semantics(r *run.Run) {
 	font := c19Font(true)
@@ -442,7 +585,19 @@ func init() {
 		}
 		toks := c19in.TokenStrings(maxLen)
 		c19Schedules(r, "C19.schedules-tokens", fmt.Sprintf("all %d token strings of length <= %d over a %d-token alphabet (keywords, flags, glyph names, quoted strings incl. unmapped and unterminated ones, punctuation, integers, newline, illegal characters, comments) under all schedules with <= 2 deviations", len(toks), maxLen, len(c19in.Tokens)), c19Font(true), toks, 2, 0.8)
+		// fonts Parse cannot work with: no character map at all, and only a subtable GetBest does not select
+		{
+			nocmap := c19Font(true)
+			nocmap.CMapTable = nil
+			symbol := c19Font(true)
+			symbol.CMapTable = cmap.Table{cmap.Key{PlatformID: 3, EncodingID: 0}: cmap.Format4{0xF041: 1}.Encode(0)}
+			ins := append(append([]string{}, descs[:min(len(descs), 8)]...), "", "GSUB1: A -> B", "GSUB1: \"A\" -> B", "GSUB4: A B -> \"", "xyz", "GSUB1: A ->")
+			frule := "%d inputs (valid descriptions, quoted strings, invalid text) parsed for a font %s, under all schedules with <= 2 deviations: an error (or lookups), no panic, no deadlock, no goroutine left parked, same result as free-running"
+			c19SchedulesOpt(r, "C19.schedules-no-cmap", fmt.Sprintf(frule, len(ins), "without a character map"), nocmap, ins, 2, 0.3, false)
+			c19SchedulesOpt(r, "C19.schedules-symbol-cmap", fmt.Sprintf(frule, len(ins), "whose only cmap subtable is a (3,0) symbol subtable"), symbol, ins, 2, 0.3, false)
+		}
 		c19RoundTrip(r)
+		c19LargePart(r)
 		c19Semantics(r)
 		if !r.Replaying() || r.ReplayOf("C19.race") != nil {
 			racePass(r, "C19", "race19.bin", []string{r.Tier}, "free-running goroutines (the repository's own builder sources, no scheduler rewrite) under the Go race detector, 8 concurrent Parse calls, GOMAXPROCS 1, 2, 4, 16; watchdog; goroutine count back to baseline after every batch; results compared across GOMAXPROCS",
